@@ -30,7 +30,7 @@ fn main() {
                 "lru" => seq::lru::replay(&behaviours, &mut out),
                 "kb" => seq::kb::replay(&behaviours, &mut out),
                 "query" => seq::query::replay(&behaviours, &mut out),
-                "filter" | "limiter" => seq::filter::replay(&behaviours, &mut out),
+                "filter" | "limiter" | "recv" => seq::filter::replay(&behaviours, &mut out),
                 "handler" => handler::run_behaviours(&behaviours, &mut out),
                 _ => Err(format!("unknown component {comp}")),
             }
@@ -45,6 +45,7 @@ fn main() {
                 "query" => seq::query::drive(seed, n, &mut out),
                 "filter" => seq::filter::drive_filter(seed, n, &mut out),
                 "limiter" => seq::filter::drive_limiter(seed, n, &mut out),
+                "recv" => seq::filter::drive_recv(seed, n, &mut out),
                 _ => Err(format!("unknown component {comp}")),
             }
         }
